@@ -198,3 +198,30 @@ Proof.
   intros A H. destruct (scope_agree_sound db s lemma A) as (sc & fr & pf & sc' & F1 & F2 & L).
   unfold mm_verify in *. rewrite F1 in H. rewrite F2. now apply (check_proof_mono sc sc' fr pf L).
 Qed.
+
+(* ------------------------------------------------------------------ sharper: only the labels the proof refers to *)
+(** labels a proof refers to: the parenthesised list of a compressed proof, every token of a normal one *)
+Definition proof_refs (pf : option (list string)) : list string :=
+  match pf with
+  | Some (first :: rest) =>
+      if String.eqb first LP then match before_first RP rest with Some l => l | None => [] end
+      else first :: rest
+  | _ => []
+  end.
+
+Lemma check_proof_mono_refs sc sc' fr pf : scope_le (proof_refs pf) sc sc' ->
+  check_proof sc fr pf = true -> check_proof sc' fr pf = true.
+Proof.
+  intros L H. unfold check_proof in *. destruct pf as [p|]; [|discriminate]. cbn [proof_refs] in L.
+  destruct (mem "?" p); [discriminate|]. cbv zeta in *.
+  destruct p as [|first rest].
+  - exact H.
+  - destruct (String.eqb first LP).
+    + destruct (before_first RP rest) as [labels|] eqn:EB; [|discriminate].
+      destruct (after_first RP rest) as [letters|]; [|discriminate].
+      destruct (decode (flat_map chars letters) 0) as [steps|]; [|discriminate].
+      destruct (run_compressed sc fr labels steps [] []) as [r|] eqn:ER; [|discriminate].
+      rewrite (run_compressed_mono labels sc sc' fr labels L (incl_refl _)) with (r := r); [exact H|exact ER].
+    + destruct (run_normal sc (first :: rest) []) as [r|] eqn:ER; [|discriminate].
+      rewrite (run_normal_mono (first :: rest) sc sc' L (first :: rest) [] r (incl_refl _) ER). exact H.
+Qed.
